@@ -492,6 +492,7 @@ type SpecClause struct {
 	Text string
 	Expr SExpr
 	Name string // optional label
+	Only string // property id: the clause is an obligation (and an assumption at call sites) only in that property's check
 }
 
 type ParamSpec struct {
@@ -675,6 +676,18 @@ func (sp *Specs) parseFile(pkg string, lines []string) {
 		case "ensures":
 			if cur != nil {
 				cur.Ensures = append(cur.Ensures, clause(rest))
+			}
+		case "ensures_in":
+			// ensures_in C19: expr   - a postcondition that belongs to one property's check only (a function shared by
+			// several properties keeps their obligations apart)
+			if cur != nil {
+				if i := strings.Index(rest, ":"); i > 0 {
+					cl := clause(strings.TrimSpace(rest[i+1:]))
+					cl.Only = strings.TrimSpace(rest[:i])
+					cur.Ensures = append(cur.Ensures, cl)
+				} else {
+					sp.errf("%s: bad ensures_in %q", pkg, rest)
+				}
 			}
 		case "assigns":
 			if cur != nil {
